@@ -1,5 +1,6 @@
 import PynnVerif.Proofs.Metrics
 import PynnVerif.Props.C07b
+import PynnVerif.Proofs.GenMetrics
 
 /-!
 # C07 — every dense metric computes its documented definition
@@ -688,6 +689,265 @@ theorem yule_symm_self (x y : List ℝ) (hl : x.length = y.length) :
         if b = 0 ∨ c = 0 then 0 else 2 * b * c / (a * (m - a - b - c) + b * c) := by
       intro a b c m; unfold yuleOfCounts; arith_norm
     rw [hr, if_pos (Or.inl (by arith_norm; simp))]
+
+/-! ## the translated kernels (`Gen/MetricKernels.lean`) refine the model
+
+`GenMetric.<kernel> fuel x y …` is the syntax-directed translation of the source text of
+`pynndescent/distances.py` (`harness/translate_metrics.py`, re-run by `check` before every build),
+over the SAME generic carrier `[Arith α]` as the model: `Option` monad, `none` = out-of-bounds
+load or fuel exhausted.  Each theorem: for all `x y` with `x.size = y.size` and fuel
+`≥ x.size + 1` the translated kernel is `some` of the model's value on `x.toList`, `y.toList` —
+so every `…_spec / _symm / _self / _defined` theorem of this file (and of `Props/C07b.lean`,
+`Props/C09.lean`) is a theorem about what `distances.py` says now.  No arithmetic law is used,
+except by the counting kernels (`CountLaws`: `ofNat 0 = 0`, `ofNat (n+1) = ofNat n + 1`,
+`a + 0 = a` — the code adds `1.0` / `0.0` to a float where the model counts in `ℕ`).
+Helper lemmas: `Proofs/GenMetrics.lean`.  NOT translated: mahalanobis, rankdata / spearmanr,
+jensen_shannon_divergence, symmetric_kl_divergence, wasserstein_1d, kantorovich, sinkhorn,
+circular_kantorovich, bit_hamming, bit_jaccard (array temporaries / whole-array numpy operations:
+outside the translator's subset; tied by sampled comparison only). -/
+section KernelTie
+open Pynn.GenMetricProofs
+
+/-- `distances.euclidean`: the translated source text = the model `Metrics.euclidean`, memory safe -/
+theorem kernel_euclidean_refines {α : Type} [Arith α] (x y : Array α) (h : x.size = y.size) (fuel : Nat)
+    (hf : x.size + 1 ≤ fuel) :
+    GenMetric.euclidean fuel x y = some (Metrics.euclidean x.toList y.toList) :=
+  euclidean_refines x y h fuel hf
+
+/-- `distances.squared_euclidean`: the translated source text = the model `Metrics.squaredEuclidean`, memory safe -/
+theorem kernel_squared_euclidean_refines {α : Type} [Arith α] (x y : Array α) (h : x.size = y.size) (fuel : Nat)
+    (hf : x.size + 1 ≤ fuel) :
+    GenMetric.squared_euclidean fuel x y = some (Metrics.squaredEuclidean x.toList y.toList) :=
+  squared_euclidean_refines x y h fuel hf
+
+/-- `distances.manhattan`: the translated source text = the model `Metrics.manhattan`, memory safe -/
+theorem kernel_manhattan_refines {α : Type} [Arith α] (x y : Array α) (h : x.size = y.size) (fuel : Nat)
+    (hf : x.size + 1 ≤ fuel) :
+    GenMetric.manhattan fuel x y = some (Metrics.manhattan x.toList y.toList) :=
+  manhattan_refines x y h fuel hf
+
+/-- `distances.chebyshev`: the translated source text = the model `Metrics.chebyshev`, memory safe -/
+theorem kernel_chebyshev_refines {α : Type} [Arith α] (x y : Array α) (h : x.size = y.size) (fuel : Nat)
+    (hf : x.size + 1 ≤ fuel) :
+    GenMetric.chebyshev fuel x y = some (Metrics.chebyshev x.toList y.toList) :=
+  chebyshev_refines x y h fuel hf
+
+/-- `distances.cosine`: the translated source text = the model `Metrics.cosine`, memory safe -/
+theorem kernel_cosine_refines {α : Type} [Arith α] (x y : Array α) (h : x.size = y.size) (fuel : Nat)
+    (hf : x.size + 1 ≤ fuel) :
+    GenMetric.cosine fuel x y = some (Metrics.cosine x.toList y.toList) :=
+  cosine_refines x y h fuel hf
+
+/-- `distances.alternative_cosine`: the translated source text = the model `Metrics.alternativeCosine`, memory safe -/
+theorem kernel_alternative_cosine_refines {α : Type} [Arith α] (x y : Array α) (h : x.size = y.size) (fuel : Nat)
+    (hf : x.size + 1 ≤ fuel) :
+    GenMetric.alternative_cosine fuel x y = some (Metrics.alternativeCosine x.toList y.toList) :=
+  alternative_cosine_refines x y h fuel hf
+
+/-- `distances.dot`: the translated source text = the model `Metrics.dot`, memory safe -/
+theorem kernel_dot_refines {α : Type} [Arith α] (x y : Array α) (h : x.size = y.size) (fuel : Nat)
+    (hf : x.size + 1 ≤ fuel) :
+    GenMetric.dot fuel x y = some (Metrics.dot x.toList y.toList) :=
+  dot_refines x y h fuel hf
+
+/-- `distances.alternative_dot`: the translated source text = the model `Metrics.alternativeDot`, memory safe -/
+theorem kernel_alternative_dot_refines {α : Type} [Arith α] (x y : Array α) (h : x.size = y.size) (fuel : Nat)
+    (hf : x.size + 1 ≤ fuel) :
+    GenMetric.alternative_dot fuel x y = some (Metrics.alternativeDot x.toList y.toList) :=
+  alternative_dot_refines x y h fuel hf
+
+/-- `distances.true_angular`: the translated source text = the model `Metrics.trueAngular`, memory safe -/
+theorem kernel_true_angular_refines {α : Type} [Arith α] (x y : Array α) (h : x.size = y.size) (fuel : Nat)
+    (hf : x.size + 1 ≤ fuel) :
+    GenMetric.true_angular fuel x y = some (Metrics.trueAngular x.toList y.toList) :=
+  true_angular_refines x y h fuel hf
+
+/-- `distances.correlation`: the translated source text = the model `Metrics.correlation`, memory safe -/
+theorem kernel_correlation_refines {α : Type} [Arith α] (x y : Array α) (h : x.size = y.size) (fuel : Nat)
+    (hf : x.size + 1 ≤ fuel) :
+    GenMetric.correlation fuel x y = some (Metrics.correlation x.toList y.toList) :=
+  correlation_refines x y h fuel hf
+
+/-- `distances.canberra`: the translated source text = the model `Metrics.canberra`, memory safe -/
+theorem kernel_canberra_refines {α : Type} [Arith α] (x y : Array α) (h : x.size = y.size) (fuel : Nat)
+    (hf : x.size + 1 ≤ fuel) :
+    GenMetric.canberra fuel x y = some (Metrics.canberra x.toList y.toList) :=
+  canberra_refines x y h fuel hf
+
+/-- `distances.bray_curtis`: the translated source text = the model `Metrics.brayCurtis`, memory safe -/
+theorem kernel_bray_curtis_refines {α : Type} [Arith α] (x y : Array α) (h : x.size = y.size) (fuel : Nat)
+    (hf : x.size + 1 ≤ fuel) :
+    GenMetric.bray_curtis fuel x y = some (Metrics.brayCurtis x.toList y.toList) :=
+  bray_curtis_refines x y h fuel hf
+
+/-- `distances.hellinger`: the translated source text = the model `Metrics.hellinger`, memory safe -/
+theorem kernel_hellinger_refines {α : Type} [Arith α] (x y : Array α) (h : x.size = y.size) (fuel : Nat)
+    (hf : x.size + 1 ≤ fuel) :
+    GenMetric.hellinger fuel x y = some (Metrics.hellinger x.toList y.toList) :=
+  hellinger_refines x y h fuel hf
+
+/-- `distances.alternative_hellinger`: the translated source text = the model `Metrics.alternativeHellinger`, memory safe -/
+theorem kernel_alternative_hellinger_refines {α : Type} [Arith α] (x y : Array α) (h : x.size = y.size) (fuel : Nat)
+    (hf : x.size + 1 ≤ fuel) :
+    GenMetric.alternative_hellinger fuel x y = some (Metrics.alternativeHellinger x.toList y.toList) :=
+  alternative_hellinger_refines x y h fuel hf
+
+/-- `distances.hamming`: the translated source text (a float accumulator to which `1.0` / `0.0` is
+added) = the model `Metrics.hamming` (counts in `ℕ`, converted by `ofNat`) on every carrier with `CountLaws` -/
+theorem kernel_hamming_refines {α : Type} [Arith α] (hc : CountLaws α) (x y : Array α)
+    (h : x.size = y.size) (fuel : Nat) (hf : x.size + 1 ≤ fuel) :
+    GenMetric.hamming fuel x y = some (Metrics.hamming x.toList y.toList) :=
+  hamming_refines hc x y h fuel hf
+
+/-- `distances.jaccard`: the translated source text (a float accumulator to which `1.0` / `0.0` is
+added) = the model `Metrics.jaccard` (counts in `ℕ`, converted by `ofNat`) on every carrier with `CountLaws` -/
+theorem kernel_jaccard_refines {α : Type} [Arith α] (hc : CountLaws α) (x y : Array α)
+    (h : x.size = y.size) (fuel : Nat) (hf : x.size + 1 ≤ fuel) :
+    GenMetric.jaccard fuel x y = some (Metrics.jaccard x.toList y.toList) :=
+  jaccard_refines hc x y h fuel hf
+
+/-- `distances.alternative_jaccard`: the translated source text (a float accumulator to which `1.0` / `0.0` is
+added) = the model `Metrics.alternativeJaccard` (counts in `ℕ`, converted by `ofNat`) on every carrier with `CountLaws` -/
+theorem kernel_alternative_jaccard_refines {α : Type} [Arith α] (hc : CountLaws α) (x y : Array α)
+    (h : x.size = y.size) (fuel : Nat) (hf : x.size + 1 ≤ fuel) :
+    GenMetric.alternative_jaccard fuel x y = some (Metrics.alternativeJaccard x.toList y.toList) :=
+  alternative_jaccard_refines hc x y h fuel hf
+
+/-- `distances.matching`: the translated source text (a float accumulator to which `1.0` / `0.0` is
+added) = the model `Metrics.matching` (counts in `ℕ`, converted by `ofNat`) on every carrier with `CountLaws` -/
+theorem kernel_matching_refines {α : Type} [Arith α] (hc : CountLaws α) (x y : Array α)
+    (h : x.size = y.size) (fuel : Nat) (hf : x.size + 1 ≤ fuel) :
+    GenMetric.matching fuel x y = some (Metrics.matching x.toList y.toList) :=
+  matching_refines hc x y h fuel hf
+
+/-- `distances.dice`: the translated source text (a float accumulator to which `1.0` / `0.0` is
+added) = the model `Metrics.dice` (counts in `ℕ`, converted by `ofNat`) on every carrier with `CountLaws` -/
+theorem kernel_dice_refines {α : Type} [Arith α] (hc : CountLaws α) (x y : Array α)
+    (h : x.size = y.size) (fuel : Nat) (hf : x.size + 1 ≤ fuel) :
+    GenMetric.dice fuel x y = some (Metrics.dice x.toList y.toList) :=
+  dice_refines hc x y h fuel hf
+
+/-- `distances.kulsinski`: the translated source text (a float accumulator to which `1.0` / `0.0` is
+added) = the model `Metrics.kulsinski` (counts in `ℕ`, converted by `ofNat`) on every carrier with `CountLaws` -/
+theorem kernel_kulsinski_refines {α : Type} [Arith α] (hc : CountLaws α) (x y : Array α)
+    (h : x.size = y.size) (fuel : Nat) (hf : x.size + 1 ≤ fuel) :
+    GenMetric.kulsinski fuel x y = some (Metrics.kulsinski x.toList y.toList) :=
+  kulsinski_refines hc x y h fuel hf
+
+/-- `distances.rogers_tanimoto`: the translated source text (a float accumulator to which `1.0` / `0.0` is
+added) = the model `Metrics.rogersTanimoto` (counts in `ℕ`, converted by `ofNat`) on every carrier with `CountLaws` -/
+theorem kernel_rogers_tanimoto_refines {α : Type} [Arith α] (hc : CountLaws α) (x y : Array α)
+    (h : x.size = y.size) (fuel : Nat) (hf : x.size + 1 ≤ fuel) :
+    GenMetric.rogers_tanimoto fuel x y = some (Metrics.rogersTanimoto x.toList y.toList) :=
+  rogers_tanimoto_refines hc x y h fuel hf
+
+/-- `distances.sokal_michener`: the translated source text (a float accumulator to which `1.0` / `0.0` is
+added) = the model `Metrics.rogersTanimoto` (counts in `ℕ`, converted by `ofNat`) on every carrier with `CountLaws` -/
+theorem kernel_sokal_michener_refines {α : Type} [Arith α] (hc : CountLaws α) (x y : Array α)
+    (h : x.size = y.size) (fuel : Nat) (hf : x.size + 1 ≤ fuel) :
+    GenMetric.sokal_michener fuel x y = some (Metrics.rogersTanimoto x.toList y.toList) :=
+  sokal_michener_refines hc x y h fuel hf
+
+/-- `distances.sokal_sneath`: the translated source text (a float accumulator to which `1.0` / `0.0` is
+added) = the model `Metrics.sokalSneath` (counts in `ℕ`, converted by `ofNat`) on every carrier with `CountLaws` -/
+theorem kernel_sokal_sneath_refines {α : Type} [Arith α] (hc : CountLaws α) (x y : Array α)
+    (h : x.size = y.size) (fuel : Nat) (hf : x.size + 1 ≤ fuel) :
+    GenMetric.sokal_sneath fuel x y = some (Metrics.sokalSneath x.toList y.toList) :=
+  sokal_sneath_refines hc x y h fuel hf
+
+/-- `distances.russellrao`: the translated source text (a float accumulator to which `1.0` / `0.0` is
+added) = the model `Metrics.russellrao` (counts in `ℕ`, converted by `ofNat`) on every carrier with `CountLaws` -/
+theorem kernel_russellrao_refines {α : Type} [Arith α] (hc : CountLaws α) (x y : Array α)
+    (h : x.size = y.size) (fuel : Nat) (hf : x.size + 1 ≤ fuel) :
+    GenMetric.russellrao fuel x y = some (Metrics.russellrao x.toList y.toList) :=
+  russellrao_refines hc x y h fuel hf
+
+/-- `distances.yule`: the translated source text (a float accumulator to which `1.0` / `0.0` is
+added) = the model `Metrics.yule` (counts in `ℕ`, converted by `ofNat`) on every carrier with `CountLaws` -/
+theorem kernel_yule_refines {α : Type} [Arith α] (hc : CountLaws α) (x y : Array α)
+    (h : x.size = y.size) (fuel : Nat) (hf : x.size + 1 ≤ fuel) :
+    GenMetric.yule fuel x y = some (Metrics.yule x.toList y.toList) :=
+  yule_refines hc x y h fuel hf
+
+/-- `distances.minkowski` (the default `p=2` is an explicit argument) -/
+theorem kernel_minkowski_refines {α : Type} [Arith α] (p : α) (x y : Array α) (h : x.size = y.size)
+    (fuel : Nat) (hf : x.size + 1 ≤ fuel) :
+    GenMetric.minkowski fuel x y p = some (Metrics.minkowski x.toList y.toList p) :=
+  minkowski_refines x y p h fuel hf
+
+/-- `distances.standardised_euclidean` (`sigma` explicit, of the length of `x`) -/
+theorem kernel_standardised_euclidean_refines {α : Type} [Arith α] (x y sigma : Array α)
+    (h : x.size = y.size) (hs : x.size = sigma.size) (fuel : Nat) (hf : x.size + 1 ≤ fuel) :
+    GenMetric.standardised_euclidean fuel x y sigma
+      = some (Metrics.standardisedEuclidean x.toList y.toList sigma.toList) :=
+  standardised_euclidean_refines x y sigma h hs fuel hf
+
+/-- `distances.weighted_minkowski` (`w`, `p` explicit) -/
+theorem kernel_weighted_minkowski_refines {α : Type} [Arith α] (x y w : Array α) (p : α)
+    (h : x.size = y.size) (hs : x.size = w.size) (fuel : Nat) (hf : x.size + 1 ≤ fuel) :
+    GenMetric.weighted_minkowski fuel x y w p
+      = some (Metrics.weightedMinkowski x.toList y.toList w.toList p) :=
+  weighted_minkowski_refines x y w p h hs fuel hf
+
+/-- `distances.tsss` -/
+theorem kernel_tsss_refines {α : Type} [Arith α] [Trig α] (x y : Array α) (h : x.size = y.size)
+    (fuel : Nat) (hf : x.size + 1 ≤ fuel) :
+    GenMetric.tsss fuel x y = some (Metrics.tsss x.toList y.toList) :=
+  tsss_refines x y h fuel hf
+
+/-- `distances.haversine`: equal as `Option`s — `none` on both sides is the `ValueError` for
+`x.shape[0] != 2`; for 2-vectors both are `some` of the same value (no out-of-bounds load) -/
+theorem kernel_haversine_refines {α : Type} [Arith α] [Trig α] (x y : Array α) (h : x.size = y.size)
+    (fuel : Nat) :
+    GenMetric.haversine fuel x y = Metrics.haversine x.toList y.toList :=
+  haversine_refines x y h fuel
+
+/-- the four scalar corrections (`@numba.vectorize` ufuncs of `distances.py`; C09 is about them) -/
+theorem kernel_corrections_refine {α : Type} [Arith α] (fuel : Nat) (d : α) :
+    GenMetric.correct_alternative_cosine fuel d = some (Metrics.correctAlternativeCosine d) ∧
+    GenMetric.true_angular_from_alt_cosine fuel d = some (Metrics.trueAngularFromAltCosine d) ∧
+    GenMetric.correct_alternative_hellinger fuel d = some (Metrics.correctAlternativeHellinger d) ∧
+    GenMetric.correct_alternative_jaccard fuel d = some (Metrics.correctAlternativeJaccard d) :=
+  ⟨rfl, rfl, rfl, rfl⟩
+
+/-- `ℝ` has the laws that relate the code's float counters to the model's `ℕ` counters -/
+theorem countLaws_real : CountLaws ℝ :=
+  ⟨by arith_norm; simp, fun n => by arith_norm; push_cast; ring, fun a => by arith_norm; ring⟩
+
+/-! ### composed: theorems of this file, restated on the translated source text (over `ℝ`) -/
+
+/-- **the translated `euclidean` returns `√(Σ (xᵢ − yᵢ)²)`** (`kernel_euclidean_refines` +
+`euclidean_spec`), without out-of-bounds access, for all real vectors of equal length -/
+theorem kernel_euclidean_spec (x y : Array ℝ) (h : x.size = y.size) (fuel : Nat)
+    (hf : x.size + 1 ≤ fuel) :
+    GenMetric.euclidean fuel x y
+      = some (Real.sqrt ((List.zipWith (fun a b => (a - b) ^ 2) x.toList y.toList).sum)) := by
+  rw [kernel_euclidean_refines x y h fuel hf, euclidean_spec]
+
+/-- **the translated `cosine` is symmetric and lies in `[0, 2]`** (`cosine_symm`, `cosine_range`) -/
+theorem kernel_cosine_symm_range (x y : Array ℝ) (h : x.size = y.size) (fuel : Nat)
+    (hf : x.size + 1 ≤ fuel) :
+    GenMetric.cosine fuel x y = GenMetric.cosine fuel y x ∧
+    ∃ c, GenMetric.cosine fuel x y = some c ∧ 0 ≤ c ∧ c ≤ 2 := by
+  rw [kernel_cosine_refines x y h fuel hf, kernel_cosine_refines y x h.symm fuel (h ▸ hf),
+    cosine_symm]
+  exact ⟨rfl, _, rfl, by
+    have := cosine_range y.toList x.toList (by simpa using h.symm)
+    exact this⟩
+
+/-- **the translated `jaccard` over `ℝ`** needs no extra hypothesis (`countLaws_real`), is symmetric
+and vanishes on identical inputs (`jaccard_symm`, `jaccard_self`) -/
+theorem kernel_jaccard_real (x y : Array ℝ) (h : x.size = y.size) (fuel : Nat)
+    (hf : x.size + 1 ≤ fuel) :
+    GenMetric.jaccard fuel x y = some (Metrics.jaccard x.toList y.toList) ∧
+    GenMetric.jaccard fuel x y = GenMetric.jaccard fuel y x ∧
+    GenMetric.jaccard fuel x x = some 0 := by
+  rw [kernel_jaccard_refines countLaws_real x y h fuel hf,
+    kernel_jaccard_refines countLaws_real y x h.symm fuel (h ▸ hf),
+    kernel_jaccard_refines countLaws_real x x rfl fuel hf, jaccard_symm, jaccard_self]
+  exact ⟨rfl, rfl, rfl⟩
+
+end KernelTie
 
 /-! ## non-vacuity -/
 
